@@ -63,6 +63,12 @@ CHECKS = {
    design_ref="DESIGN.md section 6 C02",
    note=COMMON_NOTE + "Hand-modelled: Model/Tree.v, Model/Kem.v, Model/Admission.v. Cryptographic secrecy (that a party without the key cannot decrypt) is not a theorem: the theorems are about who is encrypted to and what is admitted.",
    technique="Coq proof (tree invariant + recipient theorem + admission) + recorded-HPKE-recipient correspondence"),
+ "C09": dict(
+   category="proof",
+   text="Coq theorems (Props/C09.v) over a transcription of the private-key bookkeeping (provisional_private_tree, encap, decap, update_secrets, update_leaf) on key tokens: the invariant PrivOK (every stored key sits at a non-blank node of the member's direct path and is that node's key) is preserved by the proposal step, by decap for every receiver / committer pair (positions from the common ancestor up; nothing below touched; filtered nodes cleared), established by encap for the committer and by update_secrets for a joiner, for every tree, member, filter list and key assignment; the committer's leaf and every non-filtered path node carry fresh keys. Tie: for every commit of generated histories and every member (committer, each receiver, each joiner) the positions holding a key afterwards are computed by the Coq model and compared with the real TreeKemPrivate. Implementation oracles: every stored key opens an HPKE ciphertext sealed to its node's key (probe per key per observation), no key for a blank node, all non-blank committer path nodes carry new keys, replaced leaf keys are gone. PARTIAL: 'filtered path node is blank' is not a theorem (validated on the implementation).",
+   design_ref="DESIGN.md section 6 C09",
+   note=COMMON_NOTE + "Hand-modelled: Model/Priv.v. A private key is identified with its public key token; the HPKE probe in the harness is what ties tokens to real key pairs.",
+   technique="Coq proof (PrivOK invariant) + per-member key-position correspondence + HPKE seal/open probes"),
 }
 NOT_YET = {}
 props = [json.loads(l) for l in open(os.path.join(V, "properties.jsonl"))]
